@@ -689,6 +689,8 @@ def build(args, tag):
     for k, v in args.items():
         if isinstance(v, list):
             out[k] = np.asarray(v, dtype=float)
+            if tag == "1d-intr" and k == "r":
+                out[k] = np.round(out[k]).astype(np.int64)
         elif tag == "0d":
             out[k] = np.array(float(v))
         else:
@@ -828,6 +830,9 @@ def run_conv(ctx, rng, n):
         hq, latq, lonq, cls = gen_geodetic(rng, q)
         drive(ctx, "conv", ell, {"h": hq[:8].reshape(-1, 1), "lat": latq.reshape(1, -1), "lon": lonq},
               "bcast", _ecc_sig(ell, cls).reshape(1, -1), _nt_conv(ell, latq).reshape(1, -1))
+        # a column of latitudes against a row of longitudes and a scalar height: (k,1) x (q,)
+        drive(ctx, "conv", ell, {"h": float(hq[0]), "lat": latq[:5].reshape(-1, 1), "lon": lonq},
+              "bcast", _ecc_sig(ell, cls[:5]).reshape(-1, 1), _nt_conv(ell, latq[:5]).reshape(-1, 1))
         # -- many small calls: the iteration count of cart2geodetic depends on the batch --------
         for j in range(small):
             k = int(rng.choice([1, 1, 1, 2, 3]))
@@ -909,6 +914,10 @@ def run_los(ctx, rng, n):
             r, lat, lon, za, aa, sig = gen_los(rng, 1, E[0])
             A = {k: float(v[0]) for k, v in zip(names, (r, lat, lon, za, aa))}
             drive(ctx, "los", ell, A, "scalar", sig.reshape(()), (np.abs(lat) > 80).reshape(()))
+        # radii stored as integers (whole metres) - same values, other dtype
+        r, lat, lon, za, aa, sig = gen_los(rng, max(6, n // 60), E[0])
+        drive(ctx, "los", ell, dict(zip(names, (np.round(r).astype(np.int64), lat, lon, za, aa))),
+              "1d-intr", sig, np.abs(lat) > 80)
         r, lat, lon, za, aa, sig = gen_los(rng, 4, E[0])
         A = {k: v.reshape(2, 2) for k, v in zip(names, (r, lat, lon, za, aa))}
         drive(ctx, "los", ell, A, "2d", sig.reshape(2, 2), (np.abs(lat) > 80).reshape(2, 2))
